@@ -533,3 +533,58 @@ Proof.
     refine (Hfin _ false _ H). eapply hinv_ext; [|apply hinv_add; exact Hh1].
     intros c. cbn beta. rewrite (xvisited_split o Hwf c), Hset. tauto.
 Qed.
+
+(* ================================================================== non-vacuity *)
+(* DTSTART 0, DTEND 3600, RRULE:FREQ=HOURLY;INTERVAL=6;COUNT=3, RDATE 1800, EXDATE 43200 + an unrelated one,
+   the 21600 instance rescheduled to 22500-23400 *)
+Definition ex_x : xevent :=
+  {| xe_start := 0; xe_end := EDtend 3600;
+     xe_rule := Some {| r_freq := Hourly; r_interval := 6; r_bound := RCount 3 |};
+     xe_rdate := [1800]; xe_ex := [43200; 777]; xe_over := [{| ov_rid := 21600; ov_start := 22500; ov_end := 23400 |}] |}.
+(* unbounded: DTSTART 100, DURATION 60, RRULE:FREQ=DAILY, first instance rescheduled to an earlier time *)
+Definition ex_inf : xevent :=
+  {| xe_start := 100; xe_end := EDuration 60;
+     xe_rule := Some {| r_freq := Daily; r_interval := 1; r_bound := RForever |};
+     xe_rdate := []; xe_ex := []; xe_over := [{| ov_rid := 100; ov_start := 40; ov_end := 50 |}] |}.
+
+Lemma ex_x_wf : wf_xevent ex_x.
+Proof.
+  unfold wf_xevent, wf_vevent, wf_rrule. cbn. repeat split; try lia.
+  intros v [<-|[]]. cbn. lia.
+Qed.
+Lemma ex_inf_wf : wf_xevent ex_inf.
+Proof.
+  unfold wf_xevent, wf_vevent, wf_rrule. cbn. repeat split; try lia.
+  intros v [<-|[]]. cbn. lia.
+Qed.
+
+Lemma ex_x_visit : xvisit rec_all no_infinity (xhull_fuel ex_x) ex_x [] =
+                   Some ([fcall 22500 23400 true; fcall 0 3600 false; fcall 1800 5400 false], false).
+Proof. vm_compute. reflexivity. Qed.
+Lemma ex_x_hull : xfind_time_range (xhull_fuel ex_x) ex_x = Some (Fin 0, Fin 23400).
+Proof. vm_compute. reflexivity. Qed.
+Lemma ex_x_match_removed : xtime_range_match (xmatch_fuel ex_x (Some 21600, Some 22000)) ex_x (Some 21600, Some 22000) = Some false.
+Proof. vm_compute. reflexivity. Qed.
+Lemma ex_x_match_moved : xtime_range_match (xmatch_fuel ex_x (Some 23000, None)) ex_x (Some 23000, None) = Some true.
+Proof. vm_compute. reflexivity. Qed.
+Lemma ex_inf_hull : xfind_time_range (xhull_fuel ex_inf) ex_inf = Some (Fin 40, PInf).
+Proof. vm_compute. reflexivity. Qed.
+Lemma ex_inf_match : xtime_range_match (xmatch_fuel ex_inf (Some 50, Some 86500)) ex_inf (Some 50, Some 86500) = Some false
+                     /\ xtime_range_match (xmatch_fuel ex_inf (Some 50, Some 86501)) ex_inf (Some 50, Some 86501) = Some true.
+Proof. split; vm_compute; reflexivity. Qed.
+
+Definition ext_nonvacuous_stmt : Prop :=
+  wf_xevent ex_x /\ wf_xevent ex_inf
+  /\ xvisit rec_all no_infinity (xhull_fuel ex_x) ex_x [] = Some ([fcall 22500 23400 true; fcall 0 3600 false; fcall 1800 5400 false], false)
+  /\ xfind_time_range (xhull_fuel ex_x) ex_x = Some (Fin 0, Fin 23400)
+  /\ xtime_range_match (xmatch_fuel ex_x (Some 21600, Some 22000)) ex_x (Some 21600, Some 22000) = Some false
+  /\ xtime_range_match (xmatch_fuel ex_x (Some 23000, None)) ex_x (Some 23000, None) = Some true
+  /\ xfind_time_range (xhull_fuel ex_inf) ex_inf = Some (Fin 40, PInf)
+  /\ xtime_range_match (xmatch_fuel ex_inf (Some 50, Some 86500)) ex_inf (Some 50, Some 86500) = Some false
+  /\ xtime_range_match (xmatch_fuel ex_inf (Some 50, Some 86501)) ex_inf (Some 50, Some 86501) = Some true.
+Lemma ext_nonvacuous : ext_nonvacuous_stmt.
+Proof.
+  unfold ext_nonvacuous_stmt.
+  split; [exact ex_x_wf|]. split; [exact ex_inf_wf|]. split; [exact ex_x_visit|]. split; [exact ex_x_hull|].
+  split; [exact ex_x_match_removed|]. split; [exact ex_x_match_moved|]. split; [exact ex_inf_hull|]. exact ex_inf_match.
+Qed.
